@@ -28,23 +28,37 @@ Definition ver3_0 (a b c : Z) : bytes :=
 Definition own_parse (s : bytes) : option core :=
   Version.parse_core (trim_space s).
 
+(* padPartial: completes "1" / "1.2" with zeros and reports how many components were written;
+   applied to the raw text after the "^" / "~" (before NewVersion's TrimSpace) *)
+Definition pad_partial (s : bytes) : bytes * N :=
+  if contains_any $"-+" s then (s, 3%N)
+  else match count_c "."%char s with
+       | O => (s ++ $".0.0", 1%N)
+       | S O => (s ++ $".0", 2%N)
+       | _ => (s, 3%N)
+       end.
+
 Definition parse_caret (s : bytes) : option (list constraint) :=
-  match own_parse s with
+  let '(padded, written) := pad_partial s in
+  match own_parse padded with
   | None => None
   | Some v =>
       let lo := ($">=", normalize v) in
-      if (major v =? 0)%Z then
-        if (minor v =? 0)%Z
+      if (major v =? 0)%Z && (1 <? written)%N then
+        if (minor v =? 0)%Z && (2 <? written)%N
         then Some [lo; ($"<", ver3_0 0 0 (succ64 (patch v)))]
         else Some [lo; ($"<", ver3_0 0 (succ64 (minor v)) 0)]
       else Some [lo; ($"<", ver3_0 (succ64 (major v)) 0 0)]
   end.
 
 Definition parse_tilde (s : bytes) : option (list constraint) :=
-  match own_parse s with
+  let '(padded, written) := pad_partial s in
+  match own_parse padded with
   | None => None
   | Some v =>
-      Some [($">=", normalize v); ($"<", ver3_0 (major v) (succ64 (minor v)) 0)]
+      if (written =? 1)%N
+      then Some [($">=", normalize v); ($"<", ver3_0 (succ64 (major v)) 0 0)]
+      else Some [($">=", normalize v); ($"<", ver3_0 (major v) (succ64 (minor v)) 0)]
   end.
 
 Definition is_x (p : bytes) : bool := beq p $"x" || beq p $"X".
